@@ -79,7 +79,7 @@ def interp_refinement(ck, n, pid="C05", calibs=None, book_only=False):
         if "error" in r:
             ck.report(f"{pid}.{c['kind']}.exception", f"implementation raised {r['error']}", {"case": jc, "impl": r})
             continue
-        if c["calib"].startswith("dyn") and any(abs(x) < 1e-9 for st in r["states"][1:] for x in st["out"]):
+        if c["calib"].startswith("dyn") and any((not (abs(x) >= 1e-9)) for st in r["states"][1:] for x in st["out"]):
             continue   # degenerate dynamic scale (see spec_check)
         for j, (k, t) in enumerate(c["interp_at"]):
             emit.append(lambda c=c, a=r["states"][k], b=r["states"][k + 1], t=t:
@@ -252,7 +252,7 @@ def spec_check(ck, n):
             continue
         # dynamic calibration with an (essentially) zero local scale: the predicted covariance is singular, backward gains are 0/0
         # and the "exact interpolation" is not defined (same exclusion as traj.check_trajectories)
-        if c["calib"].startswith("dyn") and any(abs(x) < 1e-9 for st in r["states"][1:] for x in st["out"]):
+        if c["calib"].startswith("dyn") and any((not (abs(x) >= 1e-9)) for st in r["states"][1:] for x in st["out"]):
             degenerate += 1
             continue
         _t, nodes = coq_spec_union(c, r)
